@@ -257,6 +257,13 @@ def fam_recfile(rng, layout, d, i):
             guard("recfile.write", {"data": t}, lambda: recfile.write(p, t, **kw), opt)
             guard("io.write", {"data": t}, lambda: eio.write(p, t, **kw), opt)
             if delim is not None:
+                # a table the text writer rejects part-way (bool / complex columns): the call raises, the argument must
+                # still be untouched
+                tb0 = rs.bin_table(rng, nrows=int(rng.choice([1, 3, 12])), mixed_order=False)
+                tb = lay_table(tb0, layout, rng)
+                guard("sfile.write(rejected types)", {"data": tb}, lambda: sfile.write(p, tb, **kw), opt)
+                guard("Recfile.write(rejected types)", {"data": tb}, lambda: _rfw(p, tb, **kw), opt)
+                guard("io.write(rejected types)", {"data": tb}, lambda: eio.write(p, tb, **kw), opt)
                 guard("sfile.write(padnull)", {"data": t}, lambda: sfile.write(p, t, padnull=True, **kw), opt)
                 guard("Recfile.write(bracket_arrays)", {"data": t}, lambda: _rfw(p, t, bracket_arrays=True, **kw), opt)
             # reading with row / column selections given as arrays
